@@ -364,6 +364,11 @@ def run(ck: Checker):
     ck.rule('C01.EVAL', 'the evaluators (evaluate_full_circuit, the explicit-stack evaluate_circuit, evaluate_circuit_outputs, evaluate, evaluate_at, get_truth_table) folded on instances of the repository\'s Circuit class over a family of model circuits (stored operands-first and users-first) and every assignment over False/True/Undefined: denotation under total assignments, soundness and monotonicity under partial ones, positional input binding, private work map')
     from .. import eval_fold
     eval_fold.fold_evaluators(ck, 'C01.EVAL')
+    # the same entry points after histories of public mutations (an answer remembered from an earlier state would show here)
+    ck.rule('C01.HIST', 'get_truth_table, evaluate_full_circuit and evaluate_circuit folded at random points of seeded histories of public mutations on instances of the repository\'s Circuit class: they answer for the circuit as it is then (shared machinery with C02.HIST)')
+    from .. import history_fold
+    history_fold.fold_histories(ck, 'C01.HIST', only=(), observers=('get_truth_table', 'evaluate_full_circuit', 'evaluate_circuit'), n_hist=(120 if ck.tier == 'quick' else 1200))
+    ck.floor('C01.HIST', 3)
     ck.floor('C01.EVAL', 6)
     apply_rules(ck)
     ck.floor('C01.APPLY', 18)
